@@ -24,5 +24,5 @@ HARNESSES = [
 
 
 def run(tier, seed, notes):
-    return run_kani_group("C06", tier, "lib", {"hnsw_backend.rs": "hnsw_backend_proofs.rs", "ann_backend.rs": "ann_backend_proofs.rs", "hot_tier.rs": "hot_tier_proofs.rs"},
+    return run_kani_group("C06", tier, "lib", {"hnsw_backend.rs": "hnsw_backend_proofs.rs", "ann_backend.rs": "ann_backend_proofs.rs", "hot_tier.rs": "hot_tier_proofs.rs", "hnsw_index.rs": "hnsw_index_proofs.rs", "simd.rs": "simd_proofs.rs"},
                           HARNESSES, jobs=6, notes=notes)
